@@ -356,16 +356,18 @@ def _finish(prop_id, prop, tier, seed, t0, results, known, fixed, replay_notes, 
         if confirmed is None:
             state_leak.append(s)
             continue
-        if args.triage:
-            violations.append((s, None, confirmed))
-            continue
         case = confirmed["case"]
         if not args.no_shrink and hasattr(prop, "shrink"):
             try:
-                budget = 60 if tier == "quick" else 600
+                budget = 20 if args.triage else (60 if tier == "quick" else 600)
                 case = prop.shrink(case, confirmed["sig"], tier, budget)
             except Exception:
                 traceback.print_exc()
+        if args.triage:
+            confirmed = dict(confirmed)
+            confirmed["case"] = case
+            violations.append((s, None, confirmed))
+            continue
         rp = os.path.join(VERIF, "replays", prop_id, "%s.json" % hashlib.sha1(s.encode()).hexdigest()[:12])
         os.makedirs(os.path.dirname(rp), exist_ok=True)
         with open(rp, "w") as fh:
